@@ -195,6 +195,30 @@ try:
                 finally:
                     shutil.rmtree(tmp, ignore_errors=True)
 
+    # ---- (4b) archive detection: an archive written by collection (marker file at its top) is recognised and loaded whatever the persisted
+    # files are called - including a collected file that carries the marker's own name
+    from insights.core.hydration import initialize_broker
+    from insights.core.context import SerializedArchiveContext
+    from insights.util import fs as _fs
+    for rel in ("etc/plain.txt", "var/tmp/old/insights_archive.txt", "insights_archive.txt.d/x", "deep/er/insights_archive.txt"):
+        tmp = tempfile.mkdtemp(prefix="c11d_")
+        try:
+            b = dr.Broker()
+            b[one] = DatasourceProvider(["payload"], rel, ds=one)
+            b[two] = DatasourceProvider(["second"], "etc/second.txt", ds=two)
+            h = Hydration(tmp)
+            h.dehydrate(one, b)
+            h.dehydrate(two, b)
+            _fs.touch(os.path.join(tmp, "insights_archive.txt"))
+            ctx, loaded = initialize_broker(tmp, broker=dr.Broker())
+            count["tolerance"] += 1
+            if not isinstance(ctx, SerializedArchiveContext) or os.path.realpath(ctx.root) != os.path.realpath(tmp):
+                fail(violation="a collected archive is not recognised at its own root", persisted_path=rel, context=type(ctx).__name__, root=getattr(ctx, "root", None))
+            if one not in loaded or two not in loaded or list(loaded[one].content) != ["payload"]:
+                fail(violation="a persisted spec is missing after loading the archive", persisted_path=rel, loaded=[c.__name__ for c in (one, two) if c in loaded])
+        finally:
+            shutil.rmtree(tmp, ignore_errors=True)
+
     # ---- (5) a failed component is persisted with its errors
     tmp = tempfile.mkdtemp(prefix="c11e_")
     try:
